@@ -66,7 +66,19 @@ def record_one(job):
     budget = job["budget"]          # total number of generated scalar samples per trace
     ev = []
     gens, stream, count, draw_of, snap = [], [], [], [], []
+    held = []       # every array ever returned (the object itself, NOT a copy) with its values at that time
     ndraw = 0
+    last_n = [None]
+
+    def kept():
+        """EarlierBlocksUnchanged: do all arrays handed out so far still hold their values?  Then hold the
+        current blocks too."""
+        ok = all(np.shape(o) == v.shape and np.array_equal(o, v) for o, v in held)
+        for o in gens:
+            a = o.get_samples()
+            if not any(a is h for h, _ in held):
+                held.append((a, np.array(a, copy=True)))
+        return ok
 
     def block_fields(g, n_req):
         """observe get_samples() of generator g and identify it"""
@@ -114,7 +126,7 @@ def record_one(job):
         gens.append(JakesSampleGenerator(Fd, Ts, L, shape_arg(sh0, seed), np.random.RandomState(seed)))
     except Exception as ex:  # noqa
         return {"id": job["id"], "seed": seed, "budget": budget, "Ts": Ts, "FdTs": fdts, "L": L,
-                "ev": [{"op": "construct", "sh": list(sh0), "count": 0, "shape": [], "first": [-1, -1], "last": [-1, -1],
+                "ev": [{"op": "construct", "sh": list(sh0), "kept": True, "count": 0, "shape": [], "first": [-1, -1], "last": [-1, -1],
                         "ph": 0, "inner": False, "exc": f"{type(ex).__name__}: {ex}"[:200]}]}
     stream.append("rs")
     count.append(0)
@@ -123,6 +135,7 @@ def record_one(job):
     e.update(block_fields(0, 1))
     count[0] = 1
     same_fields()
+    e["kept"] = kept()
     ev.append(e)
     shapes = [sh0]
 
@@ -133,12 +146,16 @@ def record_one(job):
         elems = int(np.prod(shapes[g])) if shapes[g] else 1
         if u < 0.42:
             n = max(1, min(int(10 ** rng.uniform(0, 5)), budget // (elems * L) if budget > 0 else 1, 10 ** 5))
+            if last_n[0] is not None and rng.random() < 0.35:
+                n = max(1, min(last_n[0], budget // (elems * L) if budget > 0 else 1))   # block by block, same size
+            last_n[0] = n
             e = {"op": "gen", "g": g + 1, "n": n, "raised": False}
             try:
                 gens[g].generate_more_samples(n)
             except Exception as ex:  # noqa
                 e.update({"raised": True, "count": 0, "shape": [], "first": [-1, -1], "last": [-1, -1], "ph": 0,
                           "inner": False, "exc": f"{type(ex).__name__}: {ex}"[:200], "pos": count[g]})
+                e["kept"] = kept()
                 ev.append(e)
                 break
             budget -= n * elems * L
@@ -154,6 +171,7 @@ def record_one(job):
             except Exception as ex:  # noqa
                 e.update({"raised": True, "count": 0, "shape": [], "first": [-1, -1], "last": [-1, -1], "ph": 0,
                           "inner": False, "exc": f"{type(ex).__name__}: {ex}"[:200], "pos": count[g]})
+                e["kept"] = kept()
                 ev.append(e)
                 break
             e.update(block_fields(g, 1))
@@ -182,7 +200,7 @@ def record_one(job):
             try:
                 gens[g].shape = shape_arg(sh, seed + ndraw)
             except Exception as ex:  # noqa
-                ev.append({"op": "setshape", "g": g + 1, "sh": list(sh), "same": False,
+                ev.append({"op": "setshape", "g": g + 1, "sh": list(sh), "same": False, "kept": kept(),
                            "exc": f"{type(ex).__name__}: {ex}"[:200]})
                 break
             shapes[g] = sh
@@ -195,7 +213,7 @@ def record_one(job):
             try:
                 sib = gens[g].get_similar_fading_generator()
             except Exception as ex:  # noqa
-                ev.append({"op": "similar", "g": g + 1, "same": False, "count": 0, "shape": [], "first": [-1, -1],
+                ev.append({"op": "similar", "g": g + 1, "same": False, "kept": kept(), "count": 0, "shape": [], "first": [-1, -1],
                            "last": [-1, -1], "ph": 0, "inner": False, "exc": f"{type(ex).__name__}: {ex}"[:200]})
                 break
             got = np.asarray(sib.get_samples())
@@ -213,6 +231,7 @@ def record_one(job):
             e.update(block_fields(len(gens) - 1, 1))
             count[-1] = 1
             e["same"] = same_fields()
+        e["kept"] = kept()
         ev.append(e)
     return {"id": job["id"], "seed": seed, "budget": job["budget"], "Ts": Ts, "FdTs": fdts, "L": L, "ev": ev}
 
@@ -230,13 +249,13 @@ def _cfg():
     cons = {"Kind": '"jakes"', "GenSizes": "{}", "SkipSizes": "{}", "BigReps": "{}", "Warm": "{0}", "MaxLen": "1000",
             "MaxGens": "2", "GenDefault": "TRUE", "Lattice": "FALSE", "L": "1", "FdQ": "0"}
     cfg = tlc.cfg_text(constants=cons, defs=defs, init="TInit", next_="TNext",
-                       invariants=["Conforms", "TypeOK", "Count", "Aligned", "OnGrid", "PhasesFixed", "Independent"])
+                       invariants=["Conforms", "TypeOK", "Count", "Aligned", "OnGrid", "PhasesFixed", "Independent", "BuffersDistinct"])
     return cfg, defs
 
 
 def _tlc_view(t):
     """only what the trace specification reads (integers, booleans, strings)"""
-    keep = ("op", "g", "n", "r", "sh", "raised", "count", "shape", "first", "last", "ph", "inner", "same")
+    keep = ("op", "g", "n", "r", "sh", "raised", "count", "shape", "first", "last", "ph", "inner", "same", "kept")
     return {"ev": [{k: v for k, v in e.items() if k in keep} for e in t["ev"]]}
 
 
